@@ -8,7 +8,7 @@ import static_frame as sf
 from .. import core, project as P, tlaval
 from . import common as C
 
-ALPH = [[['s', 'A'], ['s', 'B'], ['s', 'C']], [['i', 1], ['i', 2], ['i', 3]], [['s', 'x'], ['s', 'y']], [['d', 'D', 18000], ['d', 'D', 18001]]]
+ALPH = [[['s', 'A'], ['s', 'B'], ['s', 'C'], ['s', 'D'], ['s', 'E']], [['i', 1], ['i', 2], ['i', 3]], [['s', 'x'], ['s', 'y']], [['d', 'D', 18000], ['d', 'D', 18001]]]
 
 
 def rand_rows(rng, depth, n):
@@ -151,6 +151,17 @@ def run_select(rows, key, via, layout_rng=None):
 
 def rand_key(rng, rows):
     depth = len(rows[0])
+    if rng.random() < 0.15:
+        # a list selector above the innermost depth naming every label present there in a shuffled order, everything below selected whole:
+        # the per-leaf parts then tile the index but not in ascending order
+        d = rng.randrange(0, depth - 1)
+        present = []
+        for r in rows:
+            if r[d] not in present:
+                present.append(r[d])
+        order = list(present)
+        rng.shuffle(order)
+        return [['all']] * d + [['loclist', order]] + [['all']] * (depth - d - 1)
     if rng.random() < 0.12:
         return ['mask', [rng.random() < 0.5 for _ in rows]]
     key = []
@@ -166,7 +177,7 @@ def rand_key(rng, rows):
         elif q < 0.55:
             key.append(['loc', rng.choice(present if rng.random() < 0.9 else labs)])
         elif q < 0.8:
-            k = rng.randint(1, 2)
+            k = rng.randint(1, min(4, len(labs)))
             key.append(['loclist', rng.sample(labs, k)])
         else:
             a = ['none'] if rng.random() < 0.3 else rng.choice(present)
@@ -318,7 +329,7 @@ def main(ctx):
                 ctx.sample({'leg': 'R', 'case': cs, 'expected': res})
         ctx.exhaustive = not quick
     events = []
-    for i in range(700 if quick else 15000):
+    for i in range(1600 if quick else 15000):
         depth = ctx.rng.choice([2, 2, 3, 4])
         rows = rand_rows(ctx.rng, depth, ctx.rng.randint(1, 9))
         q = ctx.rng.random()
